@@ -226,6 +226,15 @@ func SingleConstructs() []*ref.Pat {
 			out = append(out, &ref.Pat{K: "br", Items: []*ref.Pat{{K: "rng", R: r, R2: 0xFF, Spell: 2}}})
 		}
 	}
+	// '^' is the anchor only as the first character of a pattern; anywhere else it is an ordinary character
+	for _, subs := range [][]*ref.Pat{
+		{{K: "lit", R: 'a'}, {K: "lit", R: '^', Spell: 1}, {K: "lit", R: 'b'}},
+		{{K: "lit", R: 'a'}, {K: "lit", R: '^', Spell: 1}},
+		{{K: "br", Items: []*ref.Pat{{K: "rng", R: '0', R2: '9'}}}, {K: "lit", R: '^', Spell: 1}, {K: "lit", R: '^', Spell: 1}, {K: "lit", R: '2'}},
+		{{K: "grp", Subs: []*ref.Pat{{K: "alt", Subs: []*ref.Pat{{K: "lit", R: 'x'}, {K: "cat", Subs: []*ref.Pat{{K: "lit", R: 'y'}, {K: "lit", R: '^', Spell: 1}}}}}}}, {K: "lit", R: 'z'}},
+	} {
+		out = append(out, &ref.Pat{K: "cat", Subs: subs})
+	}
 	// repetition counts written with leading zeros are decimal numbers (num = {{ digit }})
 	for _, q := range []struct {
 		form     string
